@@ -273,6 +273,58 @@ def on_every_path(body, start, end, must):
     return True
 
 
+def canonical_scalar(repo, b, t, depth=0):
+    """is the 256-bit integer `t` (a term of body b) the canonical value of a prime-field element?  A conversion written out, a thin
+    crate-local wrapper of one, a generic `.into()` all of whose instances are one, or an argument of a crate-internal function
+    all of whose callers pass one. → (ok, why)"""
+    F = repo.F
+    fp = repo.fp_types()
+    t = strip(t)
+    if any(is_canon_conv(t, ap) is not None for ap in fp):
+        return True, ""
+    if t[0] == "call" and t[1].name == "into" and "Into<crate::u256::U256>" in t[1].i:
+        res = [c["inst"] for i in F.instances.values() if i["def"] == b.rec["path"] and i.get("expanded") for c in i["calls"]
+               if c.get("bb") is not None and "core::convert::Into<crate::u256::U256>>::into" in c.get("inst", "")]
+        if res and all(any(("<%s as core::convert::Into<crate::u256::U256>>::into" % ap) == r for ap in fp) for r in res):
+            return True, ""
+        return False, "a generic conversion in %s resolves to %s" % (b.rec["path"], sorted(set(res))[:3])
+    if t[0] == "call" and depth < 4:
+        from core.terms import expand_call
+        cb = F.bodies.get(t[1].d)
+        if cb is not None and len(cb.blocks) <= 6:
+            e = expand_call(repo, t, lambda c: True)
+            if e is not None:
+                # (judged as a term of the wrapper: its own conversions resolve in its own instances)
+                return canonical_scalar(repo, cb, repo.tb(cb).return_value(), depth + 1)
+    if t[0] == "param" and not F.is_exported(b.rec["path"]) and depth < 4:
+        ok, why, _ = canonical_at_call_sites(repo, b, t[1], depth + 1)
+        return ok, why
+    return False, "%s in %s is not a canonical conversion of a field element" % (show(t, maxdepth=3)[:100], b.rec["path"])
+
+
+def canonical_at_call_sites(repo, b, k, depth=0):
+    F = repo.F
+    path = b.rec["path"]
+    n = 0
+    for cb in F.fn_bodies():
+        tb = None
+        for bb, t in cb.calls():
+            fn = t.get("fn") or {}
+            if path not in (fn.get("res_def"), fn.get("def")):
+                continue
+            tb = tb or repo.tb(cb)
+            args = tb.call_args(bb)
+            if len(args) < k:
+                return False, "a call in %s passes %d arguments" % (cb.rec["path"], len(args)), n
+            n += 1
+            ok, why = canonical_scalar(repo, cb, args[k - 1], depth)
+            if not ok:
+                return False, why, n
+    if n == 0:
+        return False, "no call site of %s was found" % path, 0
+    return True, "", n
+
+
 def rule_bits(prop, repo):
     F = repo.F
     R = Rule("R-BITS", "the scanned scalar is the canonical (non-Montgomery) value; bits are produced from 255 down to 0 after skipping leading zeros", floor=5, exhaustive=True)
@@ -289,6 +341,13 @@ def rule_bits(prop, repo):
                     continue          # one bit-scan method of the integer delegating to another on the same value: judged at its own callers
                 R.instance()
                 ok = any(is_canon_conv(recv, ap) is not None for ap in fp)
+                if not ok and recv[0] == "param" and not F.is_exported(b.rec["path"]):
+                    # the integer arrives as an argument of a crate-internal function: the conversion is its callers' business —
+                    # every call site in the crate has to hand over a canonical conversion
+                    okc, whyc, nsites = canonical_at_call_sites(repo, b, recv[1])
+                    R.check(okc, "%s:bits:%s" % (prop, b.rec["path"]), "%s scans the bits of its argument %d, and %s" % (b.rec["path"], recv[1], whyc), loc_of(b, bb), b.rec["path"],
+                            sample={"fn": b.rec["path"], "scans": "argument %d" % recv[1], "call_sites_judged": nsites})
+                    continue
                 generic_into = recv[0] == "call" and recv[1].name == "into" and "Into<crate::u256::U256>" in recv[1].i
                 if generic_into and not ok:
                     # generic `by.into()`: every instance must resolve to the canonical conversion of a prime-field type
